@@ -386,6 +386,20 @@ def _spacing_axes(run, mi):
             vv = vec(v)
             if vv is not None:
                 tags[t.elts[0].id], tags[t.elts[1].id] = vv
+    # a cell count taken as 'largest grid index + 1' is the count only for index maps that start at 0: the function accepts any (ix, iy) keys
+    for e in ast.walk(fn):
+        if isinstance(e, ast.BinOp) and isinstance(e.op, ast.Add) and any(isinstance(c_, ast.Constant) and c_.value == 1 for c_ in (e.left, e.right)):
+            other = e.right if isinstance(e.left, ast.Constant) else e.left
+            if isinstance(other, ast.Call) and (dotted(other.func) or '').split('.')[-1] in ('max', 'amax') and other.args \
+                    and not any(isinstance(x, ast.Call) and (dotted(x.func) or '').split('.')[-1] in ('min', 'amin', 'ptp') for x in ast.walk(other)):
+                gen_ = [g_ for g_ in ast.walk(fn) if isinstance(g_, (ast.GeneratorExp, ast.ListComp)) and any(x is e for x in ast.walk(g_))]
+                src_ = norm(gen_[0].generators[0].iter) if gen_ else norm(other.args[0])
+                if 'index' in src_ or 'map' in src_:
+                    run.subject('C20-R1a')
+                    run.fail('C20-R1a', K + 'count-from-largest-index', FILE, e.lineno,
+                             "generate_derivative_operators takes the number of rows / columns as %s: that is the count only when the grid "
+                             "indices start at 0; for an index map with an offset (a window of a larger grid, negative indices) the voxel "
+                             "spacing derived from it is wrong and every operator is mis-scaled" % norm(e)[:50])
     for nm, want in (('dx', 0), ('dy', 1)):
         run.subject('C20-R1a')
         got = tags.get(nm)
@@ -410,6 +424,12 @@ def _inputs_kept(run, mi):
         if fn is None:
             continue
         run.subject('C20-R8')
+        try:
+            # private helpers work on the arrays they are handed: read them where they are called
+            from ..inline import flatten, module_lookup
+            fn = flatten(fn, module_lookup(mi))
+        except Exception:
+            pass
         bad = mutations(fn)
         for st, text in bad:
             run.fail('C20-R8', 'cherab.tools.inversions.admt_utils|%s|mutates-argument' % name, FILE, st.lineno,
